@@ -1,0 +1,76 @@
+//go:build verif
+
+// Contracts for package geometry, read by /verif/govc (comment-only file,
+// compiled only under the build tag "verif"; contains no executable code).
+
+package geometry
+
+// ---------------------------------------------------------------- C19: segment kernels
+
+//@ spec func cross(a Point, b Point, p Point) real { (b.X-a.X)*(p.Y-a.Y) - (b.Y-a.Y)*(p.X-a.X) }
+//@ spec func onSeg(a Point, b Point, p Point) bool {
+//@     cross(a,b,p) == 0 && min(a.X,b.X) <= p.X && p.X <= max(a.X,b.X) && min(a.Y,b.Y) <= p.Y && p.Y <= max(a.Y,b.Y) }
+//@ spec func rayIn(a Point, b Point, p Point) bool {
+//@     !onSeg(a,b,p) && ((a.Y <= p.Y) != (b.Y <= p.Y)) && ite(b.Y > a.Y, cross(a,b,p) > 0, cross(a,b,p) < 0) }
+//@ spec func meet(a Point, b Point, c Point, d Point, s real, t real) bool {
+//@     0 <= s && s <= 1 && 0 <= t && t <= 1 &&
+//@     a.X + s*(b.X-a.X) == c.X + t*(d.X-c.X) && a.Y + s*(b.Y-a.Y) == c.Y + t*(d.Y-c.Y) }
+//@ spec func param(a Point, b Point, p Point) real {
+//@     ite(b.X != a.X, (p.X-a.X)/(b.X-a.X), ite(b.Y != a.Y, (p.Y-a.Y)/(b.Y-a.Y), 0)) }
+
+//@ func eqZero
+//@   props C19
+//@   pure
+//@   ensures result == (x == 0)
+
+//@ func Segment.Raycast
+//@   props C19
+//@   ensures On: result.On == onSeg(seg.A, seg.B, point)
+//@   ensures In: result.In == rayIn(seg.A, seg.B, point)
+//@   loop 0 invariant p.X == point.X && (p.Y == point.Y || (p.Y == point.Y + eps && (point.Y == a.Y || point.Y == b.Y) && p.Y != a.Y && p.Y != b.Y))
+//@   loop 0 decreases ite(p.Y == a.Y || p.Y == b.Y, 1, 0)
+
+//@ func Segment.ContainsPoint
+//@   props C19
+//@   ensures result == onSeg(seg.A, seg.B, point)
+
+//@ func Segment.CollinearPoint
+//@   props C19
+//@   ensures result == (cross(seg.A, seg.B, point) == 0)
+
+//@ func Segment.ContainsSegment
+//@   props C19
+//@   ensures result == (onSeg(seg.A, seg.B, other.A) && onSeg(seg.A, seg.B, other.B))
+
+//@ spec func rxsOf(a Point, b Point, c Point, d Point) real { (b.X-a.X)*(d.Y-c.Y) - (b.Y-a.Y)*(d.X-c.X) }
+//@ spec func cmpxsOf(a Point, b Point, c Point, d Point) real { (c.X-a.X)*(d.Y-c.Y) - (c.Y-a.Y)*(d.X-c.X) }
+//@ spec func cmpxrOf(a Point, b Point, c Point, d Point) real { (c.X-a.X)*(b.Y-a.Y) - (c.Y-a.Y)*(b.X-a.X) }
+
+// Cramer's rule for the 2x2 system behind meet(): pure polynomial identities.
+//@ lemma cramer(a Point, b Point, c Point, d Point, s real, t real)
+//@   props C19
+//@   requires meet(a,b,c,d,s,t)
+//@   ensures Lin: s*rxsOf(a,b,c,d) == cmpxsOf(a,b,c,d) && t*rxsOf(a,b,c,d) == cmpxrOf(a,b,c,d)
+//@   ensures Quot: rxsOf(a,b,c,d) != 0 ==> s == cmpxsOf(a,b,c,d)/rxsOf(a,b,c,d) && t == cmpxrOf(a,b,c,d)/rxsOf(a,b,c,d)
+
+//@ lemma onSegParam(a Point, b Point, p Point)
+//@   props C19
+//@   requires onSeg(a,b,p)
+//@   ensures Range: 0 <= param(a,b,p) && param(a,b,p) <= 1
+//@   ensures Pt: a.X + param(a,b,p)*(b.X-a.X) == p.X && a.Y + param(a,b,p)*(b.Y-a.Y) == p.Y
+
+// The two closed segments share a point  <=>  exists s,t :: meet(a,b,c,d,s,t).
+// true direction: witnesses per return site ($s,$t); false direction: s,t universally quantified ghosts.
+//@ func Segment.IntersectsSegment
+//@   props C19
+//@   ghost gs real
+//@   ghost gt real
+//@   ensures True: result ==> meet(seg.A, seg.B, other.A, other.B, $s, $t)
+//@   ensures False: !result ==> !meet(seg.A, seg.B, other.A, other.B, gs, gt)
+//@   ret use cramer(seg.A, seg.B, other.A, other.B, gs, gt)
+//@   ret use onSegParam(seg.A, seg.B, other.A)
+//@   ret use onSegParam(seg.A, seg.B, other.B)
+//@   ret 8 let $s = ite(seg.A == other.A || seg.A == other.B, 0, 1) ; $t = ite(seg.A == other.A, 0, ite(seg.A == other.B, 1, ite(seg.B == other.A, 0, 1)))
+//@   ret 9 let $s = ite(onSeg(seg.A, seg.B, other.A), param(seg.A, seg.B, other.A), param(seg.A, seg.B, other.B)) ; $t = ite(onSeg(seg.A, seg.B, other.A), 0, 1)
+//@   ret 10 let $s = param(seg.A, seg.B, other.A) ; $t = 0
+//@   ret 13 let $s = t ; $t = u
